@@ -67,13 +67,16 @@ func Param(name string) int {
 // Byte returns an arbitrary byte.
 func Byte(name string) byte {
 	need()
-	return byte(w.Ints[name])
+	return byte(intOf(name))
 }
 
 // Int returns an arbitrary int in [lo, hi].
 func Int(name string, lo, hi int) int {
 	need()
-	v := int(w.Ints[name])
+	if lo == hi {
+		return lo
+	}
+	v := int(intOf(name))
 	if v < lo || v > hi {
 		panic(AssumeFailed{})
 	}
@@ -83,25 +86,28 @@ func Int(name string, lo, hi int) int {
 // Uint32 returns an arbitrary uint32.
 func Uint32(name string) uint32 {
 	need()
-	return uint32(w.Ints[name])
+	return uint32(intOf(name))
 }
 
 // Uint64 returns an arbitrary uint64.
 func Uint64(name string) uint64 {
 	need()
-	return uint64(w.Ints[name])
+	return uint64(intOf(name))
 }
 
 // Bool returns an arbitrary bool.
 func Bool(name string) bool {
 	need()
-	return w.Ints[name] != 0
+	return intOf(name) != 0
 }
 
 // Choose returns an arbitrary value in [0,k); the executor explores each value on its own path.
 func Choose(name string, k int) int {
 	need()
-	v := int(w.Ints[name])
+	if k <= 1 {
+		return 0
+	}
+	v := int(intOf(name))
 	if v < 0 || v >= k {
 		panic(AssumeFailed{})
 	}
@@ -234,4 +240,13 @@ func ParamOr(name string, def int) int {
 		return v
 	}
 	return def
+}
+
+// intOf returns a scalar input of the witness; a witness that lacks it was not produced for this path.
+func intOf(name string) int64 {
+	v, ok := w.Ints[name]
+	if !ok {
+		panic("sym: missing int " + name)
+	}
+	return v
 }
